@@ -14,7 +14,7 @@ for pid in ready:
     except Exception:
         th = ev = w = "?"
     h = c["harness"]; h = ",".join(h) if isinstance(h, list) else h
-    print("| %s | %s | %s | %s | %s | %s |" % (pid, th, c["model_exe"], h, ev, w))
+    print("| %s | %s | %s | %s | %s | %s |" % (pid, th, ",".join(c["model_exe"]) if isinstance(c["model_exe"], list) else c["model_exe"], h, ev, w))
 print()
 k = json.load(open(os.path.join(R, "known_findings.json")))
 print("Fixed (%d):" % len(k["fixed"]))
